@@ -278,11 +278,11 @@ Proof.
       * intros b' Hb'. apply Hbs. simpl; auto.
     + apply mem_false in Mb.
       assert (Hne : a <> b) by (intros ->; apply Hab; simpl; auto).
-      destruct (update_step pop inds a b visited s J K Ha (Hbs b (or_introl eq_refl)) Hne Mb Hbv Hvis)
-        as (J' & K' & L' & N').
+      pose proof (update_step pop inds a b visited s J K Ha (Hbs b (or_introl eq_refl)) Hne Mb Hbv Hvis) as U.
+      cbn zeta in U. destruct U as (J' & K' & L' & N').
       destruct (Nat.leb_spec needed (length (update_removal_set pop a b s))) as [Hge|Hlt].
-      * injection E as <- <-. repeat split; auto. lia.
-      * apply (IH (visited ++ [b]) _ s' early); auto.
+      * injection E as <- <-. split; [auto|split; [auto|lia]].
+      * apply (IH (visited ++ [b]) (update_removal_set pop a b s) s' early); auto.
         -- simpl in Hab. tauto.
         -- intros b' Hb'. apply Hbs. simpl; auto.
 Qed.
@@ -294,9 +294,9 @@ Lemma outer_spec pop all needed : forall inds s,
   justified pop all s' /\ NoDup s' /\ length s' <= needed.
 Proof.
   induction inds as [|a r IH]; intros s Hsub Hnd J Hlen Hns; cbn [outer].
-  - repeat split; auto. lia.
+  - split; [auto|split; [auto|lia]].
   - destruct r as [|b r'].
-    + repeat split; auto. lia.
+    + split; [auto|split; [auto|lia]].
     + remember (b :: r') as r eqn:Er.
       assert (Hsub' : forall i, In i r -> In i all) by (intros; apply Hsub; simpl; auto).
       inversion Hnd as [|? ? Har Hndr]; subst x l.
@@ -308,7 +308,7 @@ Proof.
         -- intros Has. contradiction.
         -- apply Hsub. simpl; auto.
         -- intros v [].
-        -- destruct early; [repeat split; auto|]. apply IH; auto.
+        -- destruct early; [split; [auto|split; auto]|]. apply IH; auto.
 Qed.
 
 Lemma streamlined_pair_spec pop i1 i2 : i1 <> i2 ->
@@ -318,11 +318,10 @@ Proof.
   intros Hne. unfold streamlined_pair.
   assert (J1 : forall x w, (x = i1 \/ x = i2) -> (w = i1 \/ w = i2) -> w <> x ->
                  (isnan_i pop x \/ dominates pop w x) -> justified pop [i1; i2] [x] /\ NoDup [x] /\ length [x] <= 1).
-  { intros x w Hx Hw Hwx Hj. repeat split; simpl; auto; [|constructor; [simpl; tauto|constructor]].
+  { intros x w Hx Hw Hwx Hj. split; [|split; [constructor; [simpl; tauto|constructor]|simpl; lia]].
     intros r [<-|[]]. split; [simpl; destruct Hx; auto|].
-    destruct Hj as [Hj|Hj]; auto. right. exists w. repeat split; auto.
-    - simpl. destruct Hw; auto.
-    - simpl. intros [E|[]]. auto. }
+    destruct Hj as [Hj|Hj]; auto. right. exists w. split; [simpl; destruct Hw; auto|split; auto].
+    simpl. intros [E|[]]. auto. }
   destruct (kisnan (sfit (getp pop i1))) eqn:N1.
   { apply (J1 i1 i2); auto. left. unfold isnan_i. destruct (sfit (getp pop i1)); [discriminate|auto]. }
   destruct (kisnan (sfit (getp pop i2))) eqn:N2.
@@ -331,7 +330,7 @@ Proof.
   { apply (J1 i2 i1); auto. right. apply first_not_dominated_spec; auto. }
   destruct (first_not_dominated (getp pop i2) (getp pop i1)) eqn:F21.
   { apply (J1 i1 i2); auto. right. apply first_not_dominated_spec; auto. }
-  repeat split; simpl; auto; [intros r []|constructor].
+  split; [intros r []|split; [constructor|simpl; lia]].
 Qed.
 
 Lemma find_inds_spec sel inds pop needed : NoDup inds -> 1 <= needed ->
@@ -340,13 +339,121 @@ Lemma find_inds_spec sel inds pop needed : NoDup inds -> 1 <= needed ->
 Proof.
   intros Hnd Hn. unfold find_inds_for_removal.
   destruct (Nat.ltb_spec (length inds) 2) as [Hl|Hl].
-  { repeat split; simpl; auto; [intros r []|constructor|lia]. }
+  { split; [intros r []|split; [constructor|simpl; lia]]. }
   destruct (Nat.eqb sel 2).
   - destruct inds as [|i1 [|i2 rest]]; simpl in Hl; try lia. cbn [nth].
     assert (Hne : i1 <> i2). { inversion Hnd; subst. simpl in *. intros ->. tauto. }
     destruct (streamlined_pair_spec pop i1 i2 Hne) as (J & N & L).
-    repeat split; auto; [|lia]. intros r Hr. destruct (J r Hr) as [Hin Hj]. split.
+    split; [|split; [auto|lia]]. intros r Hr. destruct (J r Hr) as [Hin Hj]. split.
     + simpl in *. tauto.
     + destruct Hj as [Hj|(w & Hw & Hws & Hd)]; auto. right. exists w. repeat split; auto. simpl in *. tauto.
-  - apply outer_spec; auto; [intros r []|simpl; lia|constructor].
+  - apply outer_spec; [auto|auto|intros r []|simpl; lia|constructor].
+Qed.
+
+(* ===================== age-fitness: the loop only permutes and truncates ===================== *)
+Lemma upd_length {A} (l : list A) i x : length (upd l i x) = length l.
+Proof. revert i; induction l as [|y l IH]; intros [|i]; simpl; auto. Qed.
+
+Lemma upd_perm {A} (r : list A) j x d : j < length r ->
+  Permutation (nth j r d :: upd r j x) (x :: r).
+Proof.
+  revert j; induction r as [|y r IH]; intros [|j] H; simpl in *; try lia.
+  - apply perm_swap.
+  - etransitivity; [apply perm_swap|]. etransitivity; [apply perm_skip, IH; lia|]. apply perm_swap.
+Qed.
+
+Lemma swap_length pop i j : length (swap pop i j) = length pop.
+Proof. unfold swap. now rewrite !upd_length. Qed.
+
+Lemma upd_same {A} (l : list A) i d : upd l i (nth i l d) = l.
+Proof. revert i; induction l as [|y l IH]; intros [|i]; simpl; auto. f_equal; auto. Qed.
+
+Lemma swap_perm pop : forall i j, i < length pop -> j < length pop -> Permutation (swap pop i j) pop.
+Proof.
+  unfold swap, getp. induction pop as [|x r IH]; intros [|i] [|j] Hi Hj; simpl in *; try lia.
+  - reflexivity.
+  - apply upd_perm. lia.
+  - apply upd_perm. lia.
+  - apply perm_skip. apply IH; lia.
+Qed.
+
+Lemma swap_removals_perm : forall sorted pop i nr,
+  (forall r, In r sorted -> r < length pop) -> i + length sorted + nr <= length pop ->
+  Permutation (swap_removals pop sorted i nr) pop /\ length (swap_removals pop sorted i nr) = length pop.
+Proof.
+  induction sorted as [|r rest IH]; intros pop i nr Hr Hl; cbn [swap_removals]; [split; auto|].
+  simpl in Hl.
+  assert (Hs : Permutation (swap pop r (length pop - (i + nr + 1))) pop).
+  { apply swap_perm; [apply Hr; simpl; auto|lia]. }
+  destruct (IH (swap pop r (length pop - (i + nr + 1))) (S i) nr) as [P L].
+  - intros r' Hr'. rewrite swap_length. apply Hr. simpl; auto.
+  - rewrite swap_length. lia.
+  - rewrite swap_length in L. split; [etransitivity; eauto|auto].
+Qed.
+
+Lemma ins_desc_perm x l : Permutation (ins_desc x l) (x :: l).
+Proof.
+  induction l as [|y r IH]; simpl; auto. destruct (Nat.leb y x); auto.
+  etransitivity; [apply perm_skip, IH|apply perm_swap].
+Qed.
+Lemma sort_desc_perm l : Permutation (sort_desc l) l.
+Proof.
+  induction l as [|x l IH]; simpl; auto. etransitivity; [apply ins_desc_perm|auto].
+Qed.
+
+Lemma unique_rand_indices_spec sel max_int tape inds tape' :
+  unique_rand_indices sel max_int tape = Ok (inds, tape') ->
+  NoDup inds /\ forall i, In i inds -> i < max_int.
+Proof.
+  unfold unique_rand_indices. destruct (Nat.leb max_int sel).
+  - intros [= <- <-]. unfold iota. split; [apply seq_NoDup|]. intros i Hi. apply in_seq in Hi. lia.
+  - destruct tape as [|cell t]; [discriminate|].
+    destruct (legal_sample cell max_int sel) eqn:El; [|discriminate]. intros [= <- <-].
+    apply legal_sample_spec in El as (_ & Hb & Hn). auto.
+Qed.
+
+Record af_inv (pop0 : list ind) (start tr : nat) (st : af_state) : Prop := {
+  ai_perm : Permutation (af_pop st) pop0;
+  ai_len : length (af_pop st) = start;
+  ai_rem : af_removed st <= tr
+}.
+
+Lemma af_loop_inv pop0 sel start tr : tr <= start -> forall fuel st st',
+  af_inv pop0 start tr st -> af_loop fuel sel start tr st = Ok st' -> af_inv pop0 start tr st'.
+Proof.
+  intros Htr. induction fuel as [|f IH]; intros st st' Hi; cbn [af_loop].
+  - intros [= <-]. auto.
+  - destruct (Nat.ltb_spec (af_removed st) tr) as [Hlt|Hge]; [|intros [= <-]; auto].
+    destruct (unique_rand_indices sel (start - af_removed st) (af_tape st)) as [[inds tape']| |] eqn:Eu;
+      try discriminate.
+    apply unique_rand_indices_spec in Eu as [Hnd Hb].
+    destruct Hi as [P L R].
+    destruct (find_inds_spec sel inds (af_pop st) (tr - af_removed st) Hnd ltac:(lia)) as (J & N & Ln).
+    set (to_remove := find_inds_for_removal sel inds (af_pop st) (tr - af_removed st)) in *.
+    apply IH. 
+    assert (Hsr : forall r, In r (sort_desc to_remove) -> r < length (af_pop st)).
+    { intros r Hr. apply (Permutation_in _ (sort_desc_perm _)) in Hr.
+      destruct (J r Hr) as [Hin _]. specialize (Hb r Hin). lia. }
+    assert (Hls : length (sort_desc to_remove) = length to_remove)
+      by (apply Permutation_length, sort_desc_perm).
+    destruct (swap_removals_perm (sort_desc to_remove) (af_pop st) 0 (af_removed st) Hsr ltac:(lia)) as [P' L'].
+    constructor; cbn [af_pop af_removed].
+    + etransitivity; eauto.
+    + congruence.
+    + lia.
+Qed.
+
+Lemma age_fitness_spec sel pop target tape ret after :
+  age_fitness sel pop target tape = Ok (ret, after) ->
+  Permutation after pop /\
+  (exists k, ret = firstn k after) /\
+  target <= length ret <= length pop.
+Proof.
+  unfold age_fitness. destruct (Nat.ltb_spec (length pop) target) as [|Hle]; [discriminate|].
+  destruct (af_loop _ _ _ _ _) as [st| |] eqn:El; try discriminate. intros [= <- <-].
+  assert (Hi : af_inv pop (length pop) (length pop - target) (mkAF pop 0 tape)).
+  { constructor; simpl; auto. lia. }
+  destruct (af_loop_inv pop sel (length pop) (length pop - target) ltac:(lia) _ _ _ Hi El) as [P L R].
+  split; auto. split; [eexists; reflexivity|].
+  rewrite firstn_length, L. lia.
 Qed.
